@@ -1225,13 +1225,16 @@ class Series(ContainerOperand):
         Args:
             dtype: not used, part of signature for a common interface
         '''
-        return ufunc_axis_skipna(
+        result = ufunc_axis_skipna(
                 array=self.values,
                 skipna=skipna,
                 axis=0,
                 ufunc=ufunc,
                 ufunc_skipna=ufunc_skipna
                 )
+        if result.__class__ is np.ndarray:
+            result.flags.writeable = False # object cells holding sequences reduce to an array
+        return result
 
     def _ufunc_shape_skipna(self, *,
             axis: int,
